@@ -599,16 +599,44 @@ func monitorGradient(line string, rect image.Rectangle, smp []image.Point, cs []
 				}
 				e.off = off
 				fr := off - math.Floor(off)
-				// an offset inside [0,1] that is EXACTLY a stop's offset must give exactly that stop's colour
+				// exact grid (scale 1, offsets multiples of 1/8, see gridGradient): the spread function and the
+				// stop boundaries are evaluated exactly, so boundary semantics can be checked without tolerance
 				exact := false
-				if sx == 1 && sy == 1 && off >= 0 && off <= 1 {
-					for _, s := range stops {
-						if s.off == off {
-							e.want, exact = s.rgba, true
+				if sx == 1 && sy == 1 && math.Abs(off) <= 64 && off*8 == math.Trunc(off*8) {
+					o, transparent := off, false
+					if off < 0 || off > 1 {
+						switch spread {
+						case 0:
+							transparent = true
+						case 1:
+							o = math.Max(0, math.Min(1, off))
+						case 3:
+							o = off - math.Floor(off)
+						default:
+							o = math.Mod(math.Abs(off), 2)
+							if o > 1 {
+								o = 2 - o
+							}
+						}
+					}
+					if transparent {
+						e.want, exact = [4]float64{}, true
+					} else {
+						for _, s := range stops {
+							if s.off == o {
+								e.want, exact = s.rgba, true
+							}
+						}
+						if !exact && o < stops[0].off {
+							e.want, exact = stops[0].rgba, true
+						}
+						if !exact && o > stops[len(stops)-1].off {
+							e.want, exact = stops[len(stops)-1].rgba, true
 						}
 					}
 				}
 				if exact {
+					e.off = off
 					pending = append(pending, e)
 					continue
 				}
